@@ -7,6 +7,14 @@ VERIF = Path(__file__).resolve().parent.parent
 
 # id -> (implemented, category, technique, level text, level note, design ref)
 P = {
+    'C18': (True, 'exploration',
+            'uid-tagged run-info records and log messages of every generated run checked against the latest completed run per location (offline check over recorded histories)',
+            'Histories mixing successful runs, failing runs (before/after logging, failing generator bodies, failing upstream during argument evaluation), retries on the '
+            'same object and in new chains of the same process, forced recomputations and same-named tasks of several chains; run_info (task identity, frozen repr of '
+            'every parameter used, input keys, declaring config/namespace, records) and log (messages of the latest run only, once, in order) are compared with what '
+            'the invocation log says the latest completed run of that location did.',
+            'Library-own log lines, timestamps, user and extra keys are ignored; what the log holds after a failed, not yet retried attempt is not specified and not judged.',
+            'DESIGN.md §3 C18'),
     'C01': (True, 'exploration',
             'provenance-carrying values checked against a reference evaluation of the configuration, over multi-process histories on one data directory',
             'Histories of 1-3 real OS processes (some freshly spawned with another hash seed) x 2-3 chains each over ONE data directory, built from families of '
